@@ -42,6 +42,14 @@ CHECKS = {
    "deterministic simulation (fault-free configuration) against an executable reference model",
    "Seeded fault-free histories (1-3 writer handles, kept readers, reopen, compaction) on FsStorage+SimFs and InMemoryStorage are executed on the real core and on the reference model; after every call a fresh reader must show exactly the model's committed state with the independently computed stored projection, add_document must return the model's value, kept readers must keep their snapshot.",
    "The reference model of DESIGN 2.4 is the intended semantics; overlapping handles judged on FsStorage only.", "3 C04"),
+ "C05": ("sched", "exploration",
+   "deterministic simulation: seeded thread schedules under an owned (baton) scheduler + linearizability check",
+   "2-4 writer threads with their own handles (+ optional compactor and reader) run as real OS threads of which exactly one runs at a time; the scheduler decides at every lock acquire/release, every FS primitive and every call boundary (uniform, sticky and PCT-style policies); invoke/return events carry global sequence numbers and a Wing-Gong search looks for a serial order in which the reference model returns every observed result and ends in the observed final contents (live and reopened from disk); no call may fail, panic or deadlock.",
+   "Code between yield points is atomic (threads interact only through the two index locks and the file system); schedules are sampled, not enumerated.", "3 C05, 2.5"),
+ "C06": ("sched", "exploration",
+   "deterministic simulation: seeded thread schedules under an owned (baton) scheduler + linearizability check",
+   "Reader-heavy programs (open, search, search again, reopen) against committing writers and a compactor under the same scheduler; reader() and search never fail, each reader's first result equals the committed state at some point between its open's invocation and return (it takes part in the linearizability search), and every later search on the same reader returns the same result whatever was committed, compacted or unlinked since.",
+   "Same as C05; SimFs keeps unlinked inodes readable through open handles as POSIX does.", "3 C06, 2.5"),
  "C14": ("model", "exploration",
    "deterministic simulation (fault-free configuration) with before/after compaction differential",
    "Histories ending in (and containing) compactions; around every compaction the full stored contents and the hit sets of a probe battery (term, phrase, prefix, query_string, keyword/range filters, nested filters incl. Not inside Nested and nested-in-nested) are compared before/after; one segment afterwards; the unsafe schema profile must be refused with files, manifest and results unchanged.",
@@ -72,7 +80,7 @@ def main():
         })
     na = [{"property_id": k, "reason": v} for k, v in sorted(NA.items())]
     pending = {
-"C05": "E2 sched", "C06": "E2 sched", 
+
       "C23": "E3 http", "C24": "E3 http", "C27": "E4 idb",
     }
     for k, v in sorted(pending.items()):
@@ -91,6 +99,7 @@ def main():
       },
       "engines": [
         {"name": "E1", "path": "/verif/sim/src/{simfs,crash,model,work,e1_*}.rs", "serves_properties": ["C01","C02","C03","C04","C14","C17","C28"], "kind_free_text": "single-threaded deterministic simulation of searchlite-core on a simulated disk (SimFs) with crash-image enumeration, fault plans, media faults, path monitor and reference model"},
+        {"name": "E2", "path": "/verif/sim/src/{sched,e2}.rs", "serves_properties": ["C05","C06"], "kind_free_text": "real threads under a seeded baton scheduler (one runs at a time; yield points at lock hooks, FS primitives, call boundaries) + Wing-Gong linearizability check against the reference model"},
       ],
       "checks": checks,
       "not_applicable": sorted(na, key=lambda x: x["property_id"]),
